@@ -387,3 +387,19 @@ Example C01_ex_duration : duration [1; 3; 2] 1500 (5 # 2) = Some (inject_Z 6 / (
   duration_spec_b 6 (TNum 5 (-1)) (TNum 5404319552844595 (-51)) = true /\
   duration_spec_b 6 (TNum 5 (-1)) (TNum 5404319552844599 (-51)) = false.
 Proof. split; [vm_compute; reflexivity|]. split; [reflexivity|]. split; vm_compute; reflexivity. Qed.
+
+(* C01_slice without the upper limit on the bounds (start, stop in {None} u [-n, +oo)): NumPy clips a bound
+   beyond the end to n and so does the reader -- the read C03's _extract_waveform makes for a spike near the
+   end of the recording, traces[max(0, t0):t1] with t1 > n_samples *)
+Theorem C01_slice_clipped : forall (A : Type) (parts : list (list (list A))) (start stop step : option Z),
+  let n := zlen (concat parts) in
+  0 < n -> unit_step step -> bound_lo n start -> bound_lo n stop ->
+  np_bound n 0 start < np_bound n n stop ->
+  getitem_rows parts (ISlice start stop step) =
+  Some (slice (concat parts) (np_bound n 0 start) (np_bound n n stop)).
+Proof. exact (@getitem_slice_clipped). Qed.
+Print Assumptions C01_slice_clipped.
+
+Example C01_ex_slice_clipped : getitem_rows ex_parts (ISlice (Some 4) (Some 9) None) = Some [[8; 9]; [10; 11]] /\
+  np_bound 6 6 (Some 9) = 6 /\ bound_lo 6 (Some 9) /\ np_bound 6 0 (Some 4) < np_bound 6 6 (Some 9).
+Proof. split; [vm_compute; reflexivity|]. split; [reflexivity|]. split; cbn; lia. Qed.
